@@ -28,6 +28,13 @@ def cases(ctx, rng):
             for k in keys:
                 if rng.below(3) == 0:
                     L.append(G.plant(G.key_path(r, "r%d" % ri, k, rng.below(2)), rng.choice(["R", "S"])))
+        # application-private dot-files living next to the entries (lib.rs promises to leave them alone):
+        # they are neither entries nor part of any directory's count
+        if rng.below(2):
+            wdirs = ["w"] if w[0] == "plain" else ["w/%s" % G.shard_name(j) for j in range(w[1])]
+            for dd in wdirs:
+                if rng.below(2):
+                    L.append("plant %s/.app_state d 644 %d %d" % (dd, G.T0 - 10**9, G.T0 - 10**9))
         nops = (20 + rng.below(40)) if ctx.quick() else (40 + rng.below(160))
         L += H.history(rng, w, readers, keys, nops, handles, fire_bias=rng.choice([0, 20, 60]))
         out.append(({"i": i, "kind": kind, "w": w, "handles": handles, "nkeys": len(keys), "nops": nops}, L))
@@ -53,7 +60,7 @@ def kv_oracle(desc, lines, impl):
         present = {}
         for l in snap:
             g = l.split(" ")
-            if g[1] == "f" and g[0].startswith("w/") and ".kismet_temp" not in g[0]:
+            if g[1] == "f" and g[0].startswith("w/") and ".kismet_temp" not in g[0] and not g[0].rsplit("/", 1)[1].startswith("."):
                 present.setdefault(g[0].rsplit("/", 1)[1], []).append((g[0], g[7]))
         # a sharded cache never holds two copies of one key
         for k, locs in present.items():
@@ -61,7 +68,8 @@ def kv_oracle(desc, lines, impl):
                 bad.append(("two copies of %s after step %d: %s" % (k, st, [p for p, _ in locs]), "duplicate"))
         # evictions since the previous step are only legitimate in a step that wrote (maintenance runs on writes)
         if prev_snap is not None:
-            before = {l.split(" ")[0] for l in prev_snap if l.split(" ")[1] == "f" and l.startswith("w/") and ".kismet_temp" not in l.split(" ")[0]}
+            before = {l.split(" ")[0] for l in prev_snap if l.split(" ")[1] == "f" and l.startswith("w/") and ".kismet_temp" not in l.split(" ")[0]
+                      and not l.split(" ")[0].rsplit("/", 1)[1].startswith(".")}
             after = {p for locs in present.values() for p, _ in locs}
             vanished = before - after
             if vanished and kind in ("get", "touch"):
@@ -70,6 +78,23 @@ def kv_oracle(desc, lines, impl):
                 kv.pop(p.rsplit("/", 1)[1], None)         # evicted (explained by C07 on this step's maintenance)
         # evictions performed by this very step (maintenance runs before the insertion)
         stp = next((x for x in impl.steps if x["step"] == st), None)
+        if stp and prev_snap is not None:
+            # every disappearance is attributable to an eviction in a directory that EXCEEDED its capacity: at the
+            # moment of each eviction the directory held more key entries than its capacity (dot-files and
+            # sub-directories do not count; the step's own insertion counts once it has been published)
+            percap = desc["w"][1] if wkind == "plain" else -(-desc["w"][2] // max(2, desc["w"][1]))
+            cur = {l.split(" ")[0] for l in prev_snap if l.split(" ")[1] == "f" and l.startswith("w/") and ".kismet_temp" not in l.split(" ")[0]}
+            for e in stp["events"]:
+                if e.get("err") or "path" not in e:
+                    continue
+                if e["call"] in ("rename", "link") and e["path"].startswith("w/") and ".kismet_temp" not in e["path"]:
+                    cur.add(e["path"])
+                elif e["call"] == "unlink" and e["path"].startswith("w/") and ".kismet_temp" not in e["path"] and e["path"] in cur:
+                    dd = e["path"].rsplit("/", 1)[0]
+                    held = len([q for q in cur if q.rsplit("/", 1)[0] == dd and not q.rsplit("/", 1)[1].startswith(".")])
+                    if held <= percap:
+                        bad.append(("%s was evicted during step %d (%s) although its directory held %d entries, capacity %d" % (e["path"], st, kind, held, percap), "eviction-within-capacity"))
+                    cur.discard(e["path"])
         if stp:
             for e in stp["events"]:
                 if e["call"] == "unlink" and not e["err"] and e["path"].startswith("w/") and ".kismet_temp" not in e["path"]:
@@ -241,7 +266,7 @@ def run(ctx):
         if k not in seen:
             seen.add(k); uniq.append(v)
     cov = {"evaluations": len(res) + len(rres) + len(fres), "put_fault_runs": len(fres), "distinct_nontrivial": nontriv, "steps": steps, "republication_histories": len(rres),
-           "rule": "random histories (%s operations) of get/touch/set/put/set_temp_file/put_temp_file/ensure/get_or_update over 4-8 keys with clustered, identical and spread hashes, through plain, sharded (2/3/4/8 shards) and stacked caches with capacities from 'maintain on every write' to 'never', 1-3 independent handles, scripted trigger and shard draws; after EVERY step the result and a full snapshot are compared with the model, and a key-value-map oracle is applied to the implementation's own observations (latest set / first put, no vanishing on reads, single copy, source consumed). In addition re-publication histories: the path given to set / put is a hard link to an already cached file (same or other key): the call must succeed, consume the path, and lookups return the value. Also set then put with every call of the put failing once (EIO): the key keeps the first value. Non-trivial = an eviction happened, more than one handle, a re-publication, or a fault run." % ("20-60" if ctx.quick() else "40-200"),
+           "rule": "random histories (%s operations) of get/touch/set/put/set_temp_file/put_temp_file/ensure/get_or_update over 4-8 keys with clustered, identical and spread hashes, through plain, sharded (2/3/4/8 shards) and stacked caches with capacities from 'maintain on every write' to 'never', 1-3 independent handles, scripted trigger and shard draws; after EVERY step the result and a full snapshot are compared with the model, and a key-value-map oracle is applied to the implementation's own observations (latest set / first put, no vanishing on reads, no disappearance from a directory holding at most its capacity - application dot-files planted next to the entries do not count -, single copy, source consumed). In addition re-publication histories: the path given to set / put is a hard link to an already cached file (same or other key): the call must succeed, consume the path, and lookups return the value. Also set then put with every call of the put failing once (EIO): the key keeps the first value. Non-trivial = an eviction happened, more than one handle, a re-publication, or a fault run." % ("20-60" if ctx.quick() else "40-200"),
            "samples": samples, "traces_validated_against_impl": agree}
     if not ctx.quick():
         rc, o = C.coqchk(PROPS)
